@@ -195,6 +195,12 @@ def gen_case(rng, pid, tier):
             s = rng.choice(alive_srv)
             alive_srv.remove(s)
             ops.append(['rmserver', s] if rng.random() < 0.55 else ['detach', s])
+            if pid == 'C05' and groups and rng.random() < 0.4:
+                # before the next cycle (the instances that lost the server still hold their identities) a group
+                # shrinks and grows again: a held identity must not be offered a second time
+                g_ = rng.choice(groups)
+                ops.append(['idg', g_, rng.randint(0, 2)])
+                ops.append(['idg', g_, rng.randint(2, 4)])
         elif r < 0.80:
             nsrv_next[0] += 1
             alive_srv.append(nsrv_next[0])
